@@ -15,6 +15,8 @@ import (
 	"math/big"
 	"os"
 	"path/filepath"
+	"reflect"
+	"runtime"
 	"sort"
 	"strconv"
 	"strings"
@@ -127,10 +129,41 @@ func recvName(e ast.Expr) string {
 	return "?"
 }
 
+// genFailure is raised by fail(): a translator met a source shape it does not understand.
+// Each generator (and each constant / table item) runs in isolation: a failure leaves ITS output
+// (file or definition) missing, so that exactly the proofs that depend on it stop building, while
+// the translators of unrelated properties still run.  The process then exits 3.
+type genFailure struct{ msg string }
+
+var failures []string
+
 func fail(f string, a ...interface{}) {
-	fmt.Fprintf(os.Stderr, "gen: "+f+"\n", a...)
-	os.Exit(2)
+	panic(genFailure{fmt.Sprintf(f, a...)})
 }
+
+// isolated runs g; a genFailure is recorded, the files g wrote in this run are removed.
+func isolated(name string, g func()) (ok bool) {
+	before := len(writtenNow)
+	defer func() {
+		if e := recover(); e != nil {
+			gf, is := e.(genFailure)
+			if !is {
+				panic(e)
+			}
+			failures = append(failures, name+": "+gf.msg)
+			fmt.Fprintf(os.Stderr, "gen: %s: %s\n", name, gf.msg)
+			for _, f := range writtenNow[before:] {
+				os.Remove(f)
+			}
+			writtenNow = writtenNow[:before]
+			ok = false
+		}
+	}()
+	g()
+	return true
+}
+
+var writtenNow []string
 
 // importDir maps an import name used in file f to a repo-relative dir (only for packages inside the repo).
 func importDir(f *ast.File, name string) (string, bool) {
@@ -331,16 +364,37 @@ func main() {
 	if err := os.MkdirAll(*out, 0o755); err != nil {
 		fail("%v", err)
 	}
+	if !isolated("setup", func() {}) {
+		os.Exit(2)
+	}
 	genConsts()
 	for _, g := range generators {
-		g()
+		name := runtime.FuncForPC(reflect.ValueOf(g).Pointer()).Name()
+		isolated(name, g)
 	}
+	// generated files of earlier runs that no generator produced this time are stale: remove them
+	keep := map[string]bool{}
+	for _, f := range writtenNow {
+		keep[filepath.Base(f)] = true
+	}
+	ents, _ := os.ReadDir(*out)
+	for _, e := range ents {
+		if strings.HasSuffix(e.Name(), ".v") && !keep[e.Name()] {
+			os.Remove(filepath.Join(*out, e.Name()))
+		}
+	}
+	if len(failures) > 0 {
+		os.WriteFile(filepath.Join(*out, "FAILED.txt"), []byte(strings.Join(failures, "\n")+"\n"), 0o644)
+		os.Exit(3)
+	}
+	os.Remove(filepath.Join(*out, "FAILED.txt"))
 }
 
 // generators: further translators, each registered from its own file's init().
 var generators []func()
 
 func writeIfChanged(path, content string) {
+	writtenNow = append(writtenNow, path)
 	old, err := os.ReadFile(path)
 	if err == nil && string(old) == content {
 		return
@@ -356,19 +410,25 @@ func genConsts() {
 	b.WriteString("From Coq Require Import ZArith NArith List.\nImport ListNotations.\n\n")
 	sort.SliceStable(constItems, func(i, j int) bool { return constItems[i].coq < constItems[j].coq })
 	for _, it := range constItems {
-		v := loadPkg(it.pkg).constVal(it.name)
-		fmt.Fprintf(&b, "(* %s: const %s *)\nDefinition z_%s : Z := %s%%Z.\n", it.pkg, it.name, it.coq, coqZ(v))
-		if v.Sign() >= 0 {
-			fmt.Fprintf(&b, "Definition n_%s : N := %s%%N.\n", it.coq, v.String())
-		}
+		it := it
+		isolated("const "+it.pkg+"."+it.name, func() {
+			v := loadPkg(it.pkg).constVal(it.name)
+			fmt.Fprintf(&b, "(* %s: const %s *)\nDefinition z_%s : Z := %s%%Z.\n", it.pkg, it.name, it.coq, coqZ(v))
+			if v.Sign() >= 0 {
+				fmt.Fprintf(&b, "Definition n_%s : N := %s%%N.\n", it.coq, v.String())
+			}
+		})
 	}
 	for _, it := range tableItems {
-		vs := loadPkg(it.pkg).intTable(it.name)
-		var ss []string
-		for _, v := range vs {
-			ss = append(ss, v.String())
-		}
-		fmt.Fprintf(&b, "(* %s: var %s *)\nDefinition t_%s : list N := [%s]%%N.\n", it.pkg, it.name, it.coq, strings.Join(ss, "; "))
+		it := it
+		isolated("table "+it.pkg+"."+it.name, func() {
+			vs := loadPkg(it.pkg).intTable(it.name)
+			var ss []string
+			for _, v := range vs {
+				ss = append(ss, v.String())
+			}
+			fmt.Fprintf(&b, "(* %s: var %s *)\nDefinition t_%s : list N := [%s]%%N.\n", it.pkg, it.name, it.coq, strings.Join(ss, "; "))
+		})
 	}
 	writeIfChanged(filepath.Join(*out, "Consts.v"), b.String())
 }
